@@ -422,7 +422,7 @@ pub fn run(rep: &mut Report, tier: &str, seed: u64, shard: (u32, u32), replay: O
         }
         rep.extra.insert("enumerated_triples".into(), json!(lattice_ops.len().pow(3)));
     }
-    let n: u64 = if tier == "thorough" { 400_000 } else { 20_000 };
+    let n: u64 = if tier == "thorough" { 400_000 } else { 60_000 };
     let budget = Budget::new(n, if tier == "thorough" { 300.0 } else { 20.0 });
     let mut i = 0;
     while budget.left(i) {
